@@ -15,13 +15,18 @@ structure C where
 inductive Err where
   | notEnough            -- "container: not enough data to return"
   | varint (e : PB.Varint.Err)
+  | json                 -- the JSON decoder's error, passed on by `UnmarshalJSON`
   deriving Repr, DecidableEq
 
 def Err.str : Err → String
   | .notEnough => "notenough"
   | .varint e => e.str
+  | .json => "json"
 
 def new (ds : List Bytes) : C := ⟨ds, 0⟩
+
+/-- `NewContainer` ("DEPRECATED, please use New(), it's the same thing"): written out a second time in the source. -/
+def newContainer (ds : List Bytes) : C := ⟨ds, 0⟩
 
 /-- `renewCompartments`: five fresh (nil) slots in front of the live compartments, offset 4. -/
 def renew (c : C) : C := ⟨[[], [], [], [], []] ++ c.comps.drop c.offset, 4⟩
@@ -155,6 +160,31 @@ def getNextBlockAsContainer (c : C) : C × Except Err C :=
     if sz > length c' then (c', .error .notEnough)
     else getAsContainer c' (sz : Int)
 
+/-! ### container/serialization.go -/
+
+/-- `MarshalJSON`: `json.Marshal(c.CompileData())` — compiles (restructures) the container as a side effect. -/
+def marshalJSON (c : C) : C × Bytes :=
+  let r := compileData c
+  (r.1, PB.Base64.jsonEnc r.2)
+
+/-- `UnmarshalJSON` (with the stale-offset repair): the argument is the JSON decoder's result for the text
+    (`none` = error, returned before anything is touched). -/
+def unmarshalJSON (c : C) : Option Bytes → C × Except Err Unit
+  | none => (c, .error .json)
+  | some raw => (⟨[raw], 0⟩, .ok ())
+
+/-- The loops of `WriteAllTo` over the live compartments, for a writer that accepts `budget` more bytes and
+    then fails with a short write: bytes written, and whether `nil` was returned. An empty compartment does
+    not reach `writer.Write` at all (`for written < len(...)`). -/
+def wtaLoop : Nat → List Bytes → Bytes × Bool
+  | _, [] => ([], true)
+  | budget, b :: rest =>
+    if budget < b.length then (b.take budget, false)
+    else let r := wtaLoop (budget - b.length) rest; (b ++ r.1, r.2)
+
+/-- `WriteAllTo` (does not consume or restructure). -/
+def writeAllTo (c : C) (budget : Nat) : Bytes × Bool := wtaLoop budget (c.comps.drop c.offset)
+
 /-- The bytes a container holds, in order (what `WriteAllTo` writes). -/
 def C.bytes (c : C) : Bytes := (c.comps.drop c.offset).flatten
 
@@ -204,9 +234,36 @@ def step (c : C) : Op → C × Out
   | .getNextN64 => outNum (getNextN64 c)
   | .holdsData => (c, .bool (holdsData c))
   | .length => (c, .num (length c))
+  | .marshalJSON => let r := marshalJSON c; (r.1, .bytes r.2)
+  | .unmarshalJSON d => match unmarshalJSON c d with
+      | (c', .ok _) => (c', .unit)
+      | (c', .error e) => (c', .err e.str)
+  | .writeAllTo budget => let r := writeAllTo c budget; (c, .wts r.1 r.2)
 
 def run (c : C) : List Op → C × List Out
   | [] => (c, [])
   | op :: ops => let r := step c op; let r' := run r.1 ops; (r'.1, r.2 :: r'.2)
+
+/-! ### Several containers at once: `AppendContainer(other)` / `AppendContainerAsBlock(other)` with `other` in
+    whatever state its history left it (offset > 0, consumed slots, spare slots in front). As the code is
+    written, ALL compartments of `other` are appended, regardless of `other.offset`. -/
+
+open PB.ByteQueue (WOp)
+
+def wstep (w : List C) : WOp → List C × Out
+  | .newc ds => (w ++ [new ds], .unit)
+  | .on i op => match w[i]? with
+    | some c => let r := step c op; (w.set i r.1, r.2)
+    | none => (w, .err "noslot")
+  | .appendFrom i j => match w[i]?, w[j]? with
+    | some c, some d => (w.set i (appendContainer c d), .unit)
+    | _, _ => (w, .err "noslot")
+  | .appendFromAsBlock i j => match w[i]?, w[j]? with
+    | some c, some d => (w.set i (appendContainerAsBlock c d), .unit)
+    | _, _ => (w, .err "noslot")
+
+def wrun (w : List C) : List WOp → List C × List Out
+  | [] => (w, [])
+  | op :: ops => let r := wstep w op; let r' := wrun r.1 ops; (r'.1, r.2 :: r'.2)
 
 end PB.Container
